@@ -243,7 +243,7 @@ CHECKS = {
     category='proof',
     text=('fkM/fkMy1y2 of all four panel kernels proved (or refuted) entry-wise against the Hessian of the kinetic energy with the reference-surface '
           'convention of the laminate; Panel.calc_kM executed symbolically with argument pass-through obligations (offset, sub-interval, size).'),
-    design_ref='DESIGN.md section 4 (C04)', note=KERNEL_NOTE + '; 24 known findings (sign of the offset coupling)',
+    design_ref='DESIGN.md section 4 (C04)', note=KERNEL_NOTE + '; 1 fixed defect (sign of the offset coupling, 24 obligations)',
     technique='contracts on kernels and Python methods; symbolic execution; exact normal form + z3'),
  'C01': dict(
     category='proof',
